@@ -55,7 +55,10 @@ impl<R: Read + Seek> ReadBox<&mut R> for DataBox {
         reader.read_u32::<BigEndian>()?; // reserved = 0
 
         let current = reader.stream_position()?;
-        let mut data = vec![0u8; (start + size - current) as usize];
+        let data_size = (start + size)
+            .checked_sub(current)
+            .ok_or(Error::InvalidData("data box is smaller than its fixed fields"))?;
+        let mut data = vec![0u8; data_size as usize];
         reader.read_exact(&mut data)?;
 
         Ok(DataBox { data, data_type })
